@@ -609,6 +609,35 @@ theorem expire_cohD (cfg : Cfg) (n : Node) (D : List Nat) (exp : Option Nat) (hc
 
 /-! ### the commands -/
 
+/-- the undo of the first write of a failed CommissioningComplete touches the store only at the
+index the fail-safe is armed for, and only for a fabric added under it -/
+theorem undoAdded_cohD (n : Node) (D : List Nat) (idx : Nat) (hc : CohD n D) : CohD (undoAdded n idx) D := by
+  unfold undoAdded
+  split
+  · rename_i had
+    unfold addingFabric at had
+    cases hfs : n.fs with
+    | none => simp [hfs] at had
+    | some a =>
+      simp only [hfs, Bool.and_eq_true, beq_iff_eq] at had
+      have ⟨hfr, hn, _, hst⟩ := removeFabricKey_spec n idx
+      have hkvF : ∀ i, i ≠ idx → kvF (removeFabricKey n idx).1.kv i = kvF n.kv i := by
+        intro i hi
+        rcases hst with ⟨_, hk, _⟩ | ⟨_, hk, _⟩
+        · rw [hk, if_neg hi]
+        · rw [hk]
+      refine ⟨fun i hi he hd => ?_, fun hnone => ?_, fun b hb _ _ _ h3 => ?_⟩
+      · have hex : exemptIdx (removeFabricKey n idx).1 = idx := by simp [exemptIdx, hfr.fs, hfs, had.1]
+        rw [hex] at he
+        rw [hkvF i he]
+        simp only [getFabric, hfr.fabrics]
+        exact hc.1 i hi (by simp [exemptIdx, hfs, had.1]; exact he) hd
+      · rw [hfr.fs, hfs] at hnone; cases hnone
+      · have : b = a := by rw [hfr.fs, hfs] at hb; simpa using hb.symm
+        subst this
+        rw [had.2] at h3; cases h3
+  · exact hc
+
 /-- what a command adds to the dirty set: the fabric of a fabric-scoped write that was answered
 with a store error -/
 def dirtyOp (D : List Nat) (mode : Mode) (op : Op) (st : Status) : List Nat :=
@@ -968,7 +997,7 @@ theorem sessOp_complete_cohD (cfg : Cfg) (n : Node) (D : List Nat) (sid s : Nat)
             simp only []
             have hc2 : CohD n2 D := cohD_frame hfr2 (by rw [hkv2]) (by rw [hkv2]) hc1m
             refine ⟨?_, by simp⟩
-            exact cohD_nets_armed n2.nets n1.managed hc2 (by rw [hfr2.fs, hfs1m]; simp)
+            exact undoAdded_cohD _ D f.idx (cohD_nets_armed n2.nets n1.managed hc2 (by rw [hfr2.fs, hfs1m]; simp))
         · subst hb1
           simp only []
           exact ⟨cohD_frame hfr1 (by rw [hkv1]) (by rw [hkv1]) hc, by simp⟩
